@@ -23,6 +23,7 @@ func runC18(r *fw.Run, p *fw.Program) {
 	c18Lazy(r, p)
 	c18CacheKey(r, p)
 	c18Shared(r, p)
+	c18Stateful(r, p)
 	// per-input jq state: the input file name is reset before each open (shared with C17.inputs)
 	c17InputFilenameResetAs(r, p, "C18.inputstate")
 }
